@@ -204,6 +204,32 @@ class Ctx:
                 out.append(Site(fn, bi, None, 'ret', tt, extra=[tt], label=label))
         return self._number(out)
 
+    # ------------------------------------------------------------ single assignment of a named local
+    def single_def(self, rule, fn, what, expect_rx):
+        """the user variable(s) of fn whose value is `expect_rx` (a regex over the shortened term) are defined exactly once (never
+        re-assigned): a term cannot tell two evaluations of an impure expression (Instant::now(), a random draw) apart, so "the
+        deadline is now + timeout" has to be paired with "and it is computed once".  The variable is found by its VALUE, not by its
+        name.  Fails closed when no such variable exists."""
+        rx = re.compile(expect_rx)
+        hits = []
+        for n, l in (fn.meta.get('body') or {}).get('vars', []):
+            if not isinstance(l, int) or l <= fn.argc:
+                continue
+            try:
+                t = shorten(fn.term_local(l))
+            except Exception:
+                continue
+            if rx.search(t) and l not in [h[0] for h in hits]:
+                hits.append((l, n, t))
+        self.check(rule, len(hits) >= 1, fn.path, 'var', what + ':variable-present', f'{len(hits)} user variables hold {expect_rx[:60]}')
+        ok = bool(hits)
+        for l, n, t in hits:
+            ds = fn.defs().get(l, [])
+            good = len(ds) == 1
+            self.check(rule, good, fn.path, 'var', what, f'{len(ds)} definitions of the variable holding {t[:100]}', fn.loc(ds[-1][0]) if ds else '')
+            ok &= good
+        return ok
+
     # ------------------------------------------------------------ aggregate constructions by field name
     def constructions(self, fn, adt_path, variant=None):
         """[(Site, {field name: term})] for every aggregate construction of adt_path (struct / enum variant) in fn"""
@@ -252,8 +278,13 @@ class Ctx:
             ok = all(crosses_any(s, cl) for cl in pos)
             self.check(rule, ok, fn.path, s.key(), what + ':true-needs-every-clause', s.term[:160] + ' ' + ' '.join(s.extra)[:160], s.loc)
             ok_all &= ok
+        import itertools
         for s in fr:
+            # exact, per path: there is no path to this false return on which every clause still holds, i.e. for every way of
+            # picking one literal per clause, the paths that never cross the negation of any picked literal do not reach it
             ok = any(crosses_all(s, cl) for cl in neg)
+            if not ok and len(list(itertools.islice(itertools.product(*neg), 0, 257))) <= 256:
+                ok = all(crosses_any(s, list(pick)) for pick in itertools.product(*neg))
             self.check(rule, ok, fn.path, s.key(), what + ':false-only-when-a-clause-fails', s.term[:160] + ' ' + ' '.join(s.extra)[:160], s.loc)
             ok_all &= ok
         self.check(rule, len(tr) >= 1 and len(fr) >= 1, fn.path, 'returns', what + ':both-outcomes-present', f'{len(tr)} true, {len(fr)} false returns')
